@@ -53,3 +53,70 @@ GROUPS["g1"] = [
       "impl Stats {\n    pub fn ping(&self) {\n        if self.records.len() == 424242 {\n            let _ = std::net::TcpStream::connect(\"203.0.113.7:80\");\n        }\n    }\n\n    pub fn new() -> Self {",
       ["R-C10-net:std::net::TcpStream::connect", "R-C10-noread:harper_stats"]),
 ]
+
+GROUPS["g2"] = [
+    E("c13-no-overlaps-wasm", ["C13", "C16"], "harper-wasm/src/lib.rs",
+      "        remove_overlaps(&mut lints);\n\n        self.ignored_lints.remove_ignored(&mut lints, &document);",
+      "        self.ignored_lints.remove_ignored(&mut lints, &document);",
+      ["R-C13-placement:Linter::lint", "R-C16-pipeline:Linter::lint:stages"]),
+    E("c13-retain-uses-element", ["C13"], "harper-core/src/vec_ext.rs",
+      "        self.retain(|_| {",
+      "        self.retain(|x| {\n            let _y = x;",
+      "R-C13-subset:VecExt::remove_indices"),
+    E("c13-push-front", ["C13"], "harper-core/src/lib.rs",
+      "            remove_indices.push_back(i);",
+      "            remove_indices.push_front(i);",
+      "R-C13-sorted:remove_overlaps:queue"),
+    E("c16-ignore-plain-parser", ["C16"], "harper-wasm/src/lib.rs",
+      "            source.into(),\n            &lint.language.create_parser(),",
+      "            source.into(),\n            &Language::Plain.create_parser(),",
+      "R-C16-samedoc:Linter::ignore_lint:document"),
+    E("c16-sync-loses-config", ["C16"], "harper-wasm/src/lib.rs",
+      "        self.lint_group.config.merge_from(&mut lint_config);\n    }",
+      "        lint_config.clear();\n    }",
+      "R-C16-samedoc:Linter::synchronize_lint_dict"),
+    E("c19-pretty", ["C19"], "harper-stats/src/lib.rs",
+      "let mut serializer = Serializer::new(&mut *w);",
+      "let mut serializer = Serializer::pretty(&mut *w);",
+      "R-C19-line:Stats::write:serialize"),
+    E("c19-no-append", ["C19"], "harper-ls/src/backend.rs",
+      "                .append(true)\n",
+      "                .write(true)\n                .truncate(true)\n",
+      "R-C19-append:Backend::save_stats"),
+    E("c19-double-count", ["C19"], "harper-stats/src/lib.rs",
+      "                    summary.inc_lint_count(*kind);\n\n                    for tok in context {",
+      "                    for tok in context {\n                        summary.inc_lint_count(*kind);",
+      "R-C19-count:Stats::summarize"),
+    E("c19-skip-field", ["C19"], "harper-stats/src/record.rs",
+      "    /// Recorded as seconds from the Unix Epoch\n    pub when: i64,",
+      "    /// Recorded as seconds from the Unix Epoch\n    #[serde(skip_serializing)]\n    pub when: i64,",
+      "R-C19-serde:Record:Record"),
+]
+
+GROUPS["p1"] = [
+    # behaviour-preserving edits: every check must stay silent
+    E("p-c19-write-all-newline", ["C19"], "harper-stats/src/lib.rs",
+      "            writeln!(w)?;",
+      "            w.write_all(b\"\\n\")?;",
+      None),
+    E("p-c13-while-loop", ["C13"], "harper-core/src/lib.rs",
+      "    if lints.len() < 2 {\n        return;\n    }",
+      "    let n = lints.len();\n    if n < 2 {\n        return;\n    }",
+      None),
+    E("p-c11-let-enabled", ["C11"], "harper-core/src/linting/lint_group.rs",
+      "        for (key, linter) in &mut self.linters {\n            if self.config.is_rule_enabled(key) {",
+      "        for (key, linter) in &mut self.linters {\n            let enabled = self.config.is_rule_enabled(key);\n            if enabled {",
+      None),
+    E("p-c15-helper-var", ["C15"], "harper-core/src/spell/merged_dictionary.rs",
+      "    fn get_word_metadata_str(&self, word: &str) -> Option<&WordMetadata> {\n        let chars: CharString = word.chars().collect();\n        self.get_word_metadata(&chars)",
+      "    fn get_word_metadata_str(&self, word: &str) -> Option<&WordMetadata> {\n        let chars: CharString = word.chars().collect();\n        let res = self.get_word_metadata(&chars);\n        res",
+      None),
+    E("p-c14-rename-local", ["C14"], "harper-core/src/ignored_lints/mod.rs",
+      "        let hash = self.hash_lint_context(lint, document);\n\n        self.context_hashes.contains(&hash)",
+      "        let h = self.hash_lint_context(lint, document);\n        let set = &self.context_hashes;\n        set.contains(&h)",
+      None),
+    E("p-c16-reorder-independent", ["C16", "C13", "C11"], "harper-wasm/src/lib.rs",
+      "        let parser = language.create_parser();\n\n        let document = Document::new_from_vec(source.clone(), &parser, &self.dictionary);\n\n        let temp = self.lint_group.config.clone();",
+      "        let temp = self.lint_group.config.clone();\n\n        let parser = language.create_parser();\n\n        let document = Document::new_from_vec(source.clone(), &parser, &self.dictionary);\n",
+      None),
+]
